@@ -77,10 +77,32 @@ def configOp (j : Json) : Json :=
   | .error .valueError => errJ "ValueError"
   | .error .attributeError => errJ "AttributeError"
 
+/-- a sequence of assignments `config[key] = value` starting from `Config()`: per step whether the
+model accepts it (`Config.set`) and the value of EVAL_UNSEEN_CATEGORIES in force afterwards.  A
+refused assignment yields no new state (`Config.set` returns `.error`), so the state in force stays
+the previous one — the statement's "accepts only its documented keys and values". -/
+def configSeqOp (j : Json) : Json :=
+  let steps := (getArr j "steps").map (fun s => match s with
+    | .arr #[.str k, .str v] => (k, v)
+    | _ => ("", ""))
+  let inForce (st : Config.State) : Json :=
+    match Config.get st "EVAL_UNSEEN_CATEGORIES" with | .ok v => Json.str v | _ => Json.null
+  let (_, outs) := steps.foldl (fun (acc : Config.State × List Json) kv =>
+    let (st, outs) := acc
+    match Config.set Generated.configFields st kv.1 kv.2 with
+    | .ok st' => (st', outs ++ [Json.mkObj [("ok", true), ("value", inForce st')]])
+    | .error e =>
+      let cls := match e with
+        | .keyError => "KeyError" | .valueError => "ValueError" | .attributeError => "AttributeError"
+      (st, outs ++ [Json.mkObj [("err", cls), ("value", inForce st)]]))
+    (Config.init Generated.configFields, [])
+  Json.mkObj [("steps", Json.arr outs.toArray)]
+
 def handle (op : String) (j : Json) : Option Json :=
   match op with
   | "c10_spec" => some (specC10 j)
   | "c10_config" => some (configOp j)
+  | "c10_config_seq" => some (configSeqOp j)
   | _ => none
 
 end FormulaeModel.Driver.C10
